@@ -73,6 +73,29 @@ import json
 print("@@" + json.dumps(res))
 """
 
+# cold import with NO process stdio: sys.stdin/stdout/stderr are None before the import (bootstrap), or the
+# three descriptors are closed by the shell (then CPython itself leaves them None); result goes to a file
+NOSTDIO = r"""
+import sys
+out, m, mode = sys.argv[1], sys.argv[2], sys.argv[3]
+if mode == "none":
+    sys.stdin = sys.stdout = sys.stderr = None
+state = [sys.stdin is None, sys.stdout is None, sys.stderr is None]
+try:
+    __import__(m)
+    res = [m, mode, True, None, None, None, state]
+except BaseException as ex:
+    tb = ex.__traceback__
+    fn, ln = None, None
+    while tb is not None:
+        fn, ln = tb.tb_frame.f_code.co_filename, tb.tb_lineno
+        tb = tb.tb_next
+    res = [m, mode, False, type(ex).__name__, str(ex)[:200], [fn, ln], state]
+import json
+with open(out, "w") as f:
+    json.dump(res, f)
+"""
+
 STATE = {}
 
 
@@ -230,6 +253,38 @@ def run(ctx):
     ctx.extra["mismatches"] = mism
     ctx.exhaustive = False
 
+    # -- no process stdio: sys.std* None (bootstrap) and descriptors 0,1,2 closed by the shell -------------
+    import shlex
+    sample = sorted(set(["ioflo", "ioflo.aid.consoling", "ioflo.base.consoling", "ioflo.aid.aiding", "ioflo.base",
+                         "ioflo.base.building", "ioflo.aio.tcp.serving", "ioflo.aio.http.httping", "ioflo.app.run",
+                         "ioflo.trim.interior.plain.controlling"]) & set(mods))
+    if ctx.thorough:
+        sample = [m for m in mods if m not in waived]
+    else:
+        sample += ctx.rng.sample([m for m in mods if m not in waived and m not in sample], 6)
+
+    def nostdio(job):
+        m, mode = job
+        outp = os.path.join(ctx.work, "ns_%s_%s.json" % (m.replace(".", "_"), mode))
+        cmd = " ".join(shlex.quote(x) for x in [vlib.PY] + translate.START_FLAGS + ["-c", NOSTDIO, outp, m, mode])
+        if mode == "closed":
+            cmd += " <&- >&- 2>&-"
+        vlib.sh(cmd, timeout=120, env=translate.child_env(vlib.impl_env(ctx.repo), ctx.repo), cwd=ctx.work)
+        try:
+            return json.load(open(outp))
+        except Exception:
+            return [m, mode, False, "NoResult", "", None, None]
+    jobs = [(m, mode) for m in sample for mode in ("none", "closed")]
+    with ThreadPoolExecutor(16) as ex:
+        STATE["nostdio"] = list(ex.map(nostdio, jobs))
+    for r in STATE["nostdio"]:
+        ctx.case({"import": r[0], "stdio": r[1], "ok": r[2]}, nontrivial=True, kind="nostdio-%s:%s" % (r[1], "ok" if r[2] else r[3]))
+        # the model has no notion of stdio: it predicts what the ordinary cold run showed
+        if r[2] != bool(alone[r[0]]["res"][-1][1]):
+            mism += 1
+            ctx.tie_broken("correspondence", "cold import without process stdio differs from the ordinary cold import",
+                           "%r" % (r,))
+
     # -- `from pkg import sub` must be the submodule whatever the import history ---------------------
     subs_of = {}
     for pk, nme, full in g["sub_files"]:
@@ -303,6 +358,19 @@ def search(ctx):
                 "modules_failing_for_this_cause": len(victims),
                 "other_root_causes": {k: [v[0] for v in vs][:5] for k, vs in roots.items() if k != root},
                 "contradicts": "C01.Props.all_import_alone"}
+    for r in STATE.get("nostdio", []):
+        if not r[2] and r[0] not in waived:
+            key = "no-stdio-import:%s" % (root_module(ctx, [r[0], False, r[3], r[4], r[5]]))
+            if ctx.known_finding(key):
+                continue
+            how = ("sys.stdin = sys.stdout = sys.stderr = None; import %s" % r[0]) if r[1] == "none" else \
+                ("import %s" % r[0])
+            return {"key": key,
+                    "command": "cd / && PYTHONPATH=%s:%s /venv/bin/python -S -c 'import sys; %s'%s" % (
+                        ctx.repo, translate.site_packages(), how, " <&- >&- 2>&-" if r[1] == "closed" else ""),
+                    "observed": {"exception": r[3], "message": r[4], "raised_at": r[5], "std_streams_none": r[6]},
+                    "expected": "the import succeeds whatever the host process' standard streams are",
+                    "contradicts": "C01.Props.import_time_stdio_guarded (static) / cold import runs"}
     for sh in STATE.get("shadow", []):
         key = "shadowed-submodule:%s.%s" % (sh["package"], sh["submodule"])
         if ctx.known_finding(key):
